@@ -4,6 +4,6 @@ set -u
 PATCH="$(realpath "$1")"; shift
 if ! git -C /repo diff --quiet; then echo "refusing: /repo has uncommitted changes"; exit 2; fi
 git -C /repo apply "$PATCH" || { echo "patch does not apply"; exit 2; }
-trap 'git -C /repo checkout -- . ; git -C /repo clean -fdq src tests 2>/dev/null' EXIT
+trap 'git -C /repo checkout -- . ; git -C /repo clean -fdq src tests 2>/dev/null; git -C /verif checkout -- evidence' EXIT  # evidence written against a patched tree is never kept
 cd /verif && ./check "$@"
 echo "mutant exit=$?"
